@@ -54,7 +54,7 @@ static PState *ps_get(const void *p)
 }
 
 /* ---- per-run (msa) merge state */
-typedef struct { uint64_t hash; int nmem; int *mem; } Snap;
+typedef struct { uint64_t hash; int nmem; int *mem; int *rk; } Snap;
 static const struct msa *g_run_msa;
 static unsigned char *g_node_done;   /* per profile index */
 static Snap *g_snap;                 /* per profile index */
@@ -113,7 +113,7 @@ static uint64_t node_projection_hash(const struct msa *msa, const int *mem, int 
 
 static void run_begin(const struct msa *msa)
 {
-    if (g_snap) for (int i = 0; i <= g_run_nprof; i++) sim_xfree(g_snap[i].mem);
+    if (g_snap) for (int i = 0; i <= g_run_nprof; i++) { sim_xfree(g_snap[i].mem); sim_xfree(g_snap[i].rk); }
     sim_xfree(g_node_done); sim_xfree(g_snap);
     g_run_msa = msa; g_run_nprof = msa->num_profiles; g_run_numseq = msa->numseq;
     g_node_done = sim_xcalloc((size_t)g_run_nprof + 1, 1);
@@ -132,6 +132,40 @@ static void run_end(const struct msa *msa)
         if (h != g_snap[c].hash)
             viol("C10_REALIGNED", "node %d: sub-alignment of its %d members differs from the snapshot taken at completion", c, g_snap[c].nmem);
     }
+}
+
+/* The same projection computed from the rows kalign finally hands out (the gapped strings made by
+   finalise_alignment / returned by kalign()), so that the rendering step is inside the check:
+   rowbyrank[r] is the row of the sequence with rank r (NULL if there is none), alen its length. */
+void hooks_c10_final_rows(char **rowbyrank, int nrank, long alen)
+{
+    if (!g_c10_on || !g_snap || alen <= 0) return;
+    unsigned char *occ = sim_xmalloc((size_t)alen + 1);
+    int *crank = sim_xmalloc(((size_t)alen + 1) * sizeof(int));
+    for (int c = g_run_numseq; c < g_run_nprof; c++) {
+        Snap *sn = &g_snap[c];
+        if (!sn->nmem || !sn->rk) continue;
+        int ok = 1;
+        for (int i = 0; i < sn->nmem; i++) if (sn->rk[i] < 0 || sn->rk[i] >= nrank || !rowbyrank[sn->rk[i]]) ok = 0;
+        if (!ok) continue;       /* rows not addressable by rank (should not happen) */
+        memset(occ, 0, (size_t)alen + 1);
+        for (int i = 0; i < sn->nmem; i++) { const char *row = rowbyrank[sn->rk[i]]; for (long k = 0; k < alen; k++) if (row[k] != '-') occ[k] = 1; }
+        int r = 0;
+        for (long k = 0; k <= alen; k++) { crank[k] = r; r += occ[k]; }
+        uint64_t h = 0xcbf29ce484222325ULL;
+        for (int i = 0; i < sn->nmem; i++) {
+            const char *row = rowbyrank[sn->rk[i]];
+            long len = 0; for (long k = 0; k < alen; k++) if (row[k] != '-') len++;
+            h = mix(h, (uint64_t)sn->rk[i] + 0x1000000ULL);
+            h = mix(h, (uint64_t)len);
+            for (long k = 0; k < alen; k++) if (row[k] != '-') h = mix(h, (uint64_t)crank[k]);
+        }
+        h = mix(h, (uint64_t)r);
+        g_probe[PR_C10_ROWS_CHECKED]++;
+        if (h != sn->hash)
+            viol("C10_REALIGNED_IN_OUTPUT", "node %d: the rows handed out for its %d members, without their common gap columns, differ from the sub-alignment snapshotted at completion", c, sn->nmem);
+    }
+    sim_xfree(occ); sim_xfree(crank);
 }
 
 static void log_event(int kind, int oid, int a, int b, int c)
@@ -187,6 +221,9 @@ static void handler(int kind, const void *obj, int a, int b, int c)
                     g_snap[c].mem = sim_xmalloc((size_t)n * sizeof(int));
                     memcpy(g_snap[c].mem, msa->sip[c], (size_t)n * sizeof(int));
                     g_snap[c].nmem = n;
+                    sim_xfree(g_snap[c].rk);
+                    g_snap[c].rk = sim_xmalloc((size_t)n * sizeof(int));
+                    for (int i = 0; i < n; i++) g_snap[c].rk[i] = msa->sequences[msa->sip[c][i]]->rank;
                     g_snap[c].hash = node_projection_hash(msa, g_snap[c].mem, n);
                 }
             }
